@@ -93,6 +93,22 @@ func cmdDev(cfg Config, fnFilter string, dump bool, budget int) int {
 		}
 		agg := map[string]string{}
 		ms := map[string]int64{}
+		if os.Getenv("GOCV_DEBUG") != "" {
+			bs := map[string]int{}
+			bt := map[string]int64{}
+			for _, ob := range rep.Obls {
+				bs[ob.result.Solver]++
+				bt[ob.result.Solver] += ob.result.Ms
+			}
+			for _, ob := range rep.Obls {
+				if !strings.Contains(ob.result.Solver, "sliced") {
+					fmt.Fprintf(os.Stderr, "   slow %s %s %dms\n", ob.result.Solver, ob.Name, ob.result.Ms)
+				}
+			}
+			for k, v := range bs {
+				fmt.Fprintf(os.Stderr, "   backend %-28s %5d instances %8d ms\n", k, v, bt[k])
+			}
+		}
 		for _, ob := range rep.Obls {
 			prev, ok := agg[ob.Name]
 			if !ok || prev == "unsat" {
